@@ -146,6 +146,14 @@ structure St (σ : Type) where
       window's `alpha` was lower still.  Impossible while evaluation and table scores stay within
       `±Inf` and the margins do not wrap; the theorems that need it say so. -/
   anomaly : Bool
+  /-- ghost (any ply): null-move pruning took its mate branch (`value >= Inf-MaxPlies → return beta`)
+      at a node whose `beta` lies below `-Inf + ply`, the score of being mated at this very node —
+      i.e. an ancestor has already found a shorter mate.  search.go guards reverse futility pruning
+      against the mate band (`beta > -Inf+MaxPlies`) but not the null move; the value handed out is
+      one no position at this ply can have, and the parent's fail-low store gives the table a mate
+      score it re-bases beyond `Inf` (Proofs/SearchRealScore.lean).  The flag is never cleared
+      during a search. -/
+  nmpOut : Bool
 
 variable {σ π : Type}
 
@@ -201,6 +209,7 @@ def popFrame (s : St σ) : St σ := { s with frames := s.frames - 1 }
 /-- fuel ran out: behave like an abort, remember it. -/
 def outOfFuel (s : St σ) : St σ := { s with aborted := true, fuelOut := true }
 def flag (s : St σ) (a : Bool) : St σ := { s with anomaly := s.anomaly || a }
+def flagNmp (s : St σ) (a : Bool) : St σ := { s with nmpOut := s.nmpOut || a }
 end St
 
 /-- outcome of a loop: the enclosing function returns `v`, or the loop ended with its variables `l`. -/
@@ -423,7 +432,11 @@ def nullMove (c : Comp σ π) (child : Child σ) (beta : Score) (d ply : Int) (s
   let r := callChild child (neg beta) (wrapS16 (neg beta + 1)) (c.nmpDepth d staticEval beta) (wrapS8 (ply + 1)) .cut
     (s.setBoard mk.1)
   let s := r.2.setBoard (r.2.board.undoNull mk.2)
-  if r.1 ≥ beta then (some (if r.1 ≥ Inf - maxPlies then beta else r.1), s) else (none, s)
+  if r.1 ≥ beta then
+    -- ghost: the mate branch hands out `beta` although `beta` lies below the mated-at-this-ply score
+    (some (if r.1 ≥ Inf - maxPlies then beta else r.1),
+     s.flagNmp (decide (r.1 ≥ Inf - maxPlies) && decide (beta < -Inf + ply)))
+  else (none, s)
 
 /-- the move loop of a node and what follows it (mate/stalemate score, table store). -/
 def abMoves (c : Comp σ π) (L : Limits) (child : Child σ) (alpha beta : Score) (d ply : Int) (nt : NodeType)
@@ -613,7 +626,8 @@ structure Engine (σ : Type) where
     cleared; tables and PV buffer as the previous search left them. -/
 def goInit (L : Limits) (e : Engine σ) (b : Board) (nodes0 : Int) : St σ :=
   { board := b, pv := e.pv, nodes := nodes0, abNodes := 0, aborted := false, polls := 0,
-    pondering := L.ponder.isSome, ps := e.ps, frames := 0, hstack := [], fuelOut := false, anomaly := false }
+    pondering := L.ponder.isSome, ps := e.ps, frames := 0, hstack := [], fuelOut := false, anomaly := false,
+    nmpOut := false }
 
 /-- the deferred `s.gen++`. -/
 def finish (c : Comp σ π) (r : Result σ) : Result σ := { r with st := r.st.setPs (c.nextGen r.st.ps) }
